@@ -103,10 +103,12 @@ example : collectAllPages exSrc = [pageOf 0 (exRaw [66, 49] 1), pageOf 1 (exRaw 
 
 /-! ## The statement of the property, for one page of one request -/
 
-/-- **body_untouched_request.** A fragment outside both margin bands of its page reaches the detector
-of every page-level operation, whatever was excluded (character-level pages included). -/
+/-- **body_untouched_request.** A fragment of a word-level page outside both margin bands of its page
+reaches the detector of every page-level operation, whatever was excluded (character-level pages:
+`body_untouched_request_charlevel`). -/
 theorem body_untouched_request (o : Options) (src : Source) (k : Nat) (rp : RawPage)
     (hrp : src[k]? = some (some rp)) (f : Frag) (hf : f ∈ rp.frags)
+    (hword : isCharacterLevel rp.frags = false)
     (htop : inTop (bands defaultConfig rp.frags rp.height) f = false)
     (hbot : inBottom (bands defaultConfig rp.frags rp.height) f = false) :
     ∃ fs, pageInput o src k = .ok fs ∧ f ∈ fs := by
@@ -115,8 +117,36 @@ theorem body_untouched_request (o : Options) (src : Source) (k : Nat) (rp : RawP
   cases needHF o
   · exact hf
   · have := body_untouched (detect defaultConfig (collectAllPages src)) (k : Int) rp.frags rp.height f hf
-      (by rw [detect_cfg]; exact htop) (by rw [detect_cfg]; exact hbot)
+      hword (by rw [detect_cfg]; exact htop) (by rw [detect_cfg]; exact hbot)
     exact this
+
+/-- **body_untouched_request_charlevel.** A glyph of a character-level page reaches the detector of
+every page-level operation when every assembled line it belongs to lies outside both margin bands
+(the filter measures lines there, as detection does), whatever was excluded. -/
+theorem body_untouched_request_charlevel (o : Options) (src : Source) (k : Nat) (rp : RawPage)
+    (hrp : src[k]? = some (some rp)) (f : Frag) (hf : f ∈ rp.frags)
+    (hcl : isCharacterLevel rp.frags = true)
+    (hout : ∀ g ∈ charLines rp.frags, f ∈ g → ∀ l, assembleLine g = some l →
+      inTop (bands defaultConfig (assembleFragmentsIntoLines rp.frags) rp.height) l = false ∧
+      inBottom (bands defaultConfig (assembleFragmentsIntoLines rp.frags) rp.height) l = false) :
+    ∃ fs, pageInput o src k = .ok fs ∧ f ∈ fs := by
+  rw [pageInput_readable hrp]
+  refine ⟨_, rfl, ?_⟩
+  cases needHF o
+  · exact hf
+  · have := body_untouched_charlevel (detect defaultConfig (collectAllPages src)) (k : Int) rp.frags rp.height f hf
+      hcl (by rw [detect_cfg]; exact hout)
+    exact this
+
+/-- the body glyph `B` of the character-level page 2 of `C11.clDoc` satisfies the hypothesis -/
+example : let fs := (clPage 1 true).frags
+    let f : Frag := { text := [66], x := 72, y := 400, w := 6, h := 12, fs := 12 }
+    isCharacterLevel fs = true ∧ f ∈ fs ∧
+    (charLines fs).all (fun g => !g.contains f || (match assembleLine g with
+      | some l => !inTop (bands defaultConfig (assembleFragmentsIntoLines fs) 792) l &&
+                  !inBottom (bands defaultConfig (assembleFragmentsIntoLines fs) 792) l
+      | none => true)) = true := by
+  decide +kernel
 
 example : let rp := exRaw [66, 49] 1
     ∃ f ∈ rp.frags, inTop (bands defaultConfig rp.frags rp.height) f = false ∧
@@ -152,23 +182,39 @@ example : let rp := exRaw [66, 50] 2
       ∃ fs, pageInput { excludeFooters := true } exSrc 1 = .ok fs ∧ f ∉ fs := by
   refine ⟨rfl, by decide +kernel, by decide +kernel, _, rfl, by decide +kernel⟩
 
-/-- **removed_only_if_request_charlevel_partial** (any page, F8). On a character-level page the text
-clause is missing (see `C11.charlevel_position_only_counterexample`): a dropped fragment lies in a
-margin band of its page and a detected region of that kind covers the page. -/
-theorem removed_only_if_request_charlevel_partial (o : Options) (src : Source) (k : Nat) (rp : RawPage)
-    (hrp : src[k]? = some (some rp)) (fs : List Frag) (h : pageInput o src k = .ok fs) (f : Frag)
-    (hf : f ∈ rp.frags) (hrem : f ∉ fs) :
+/-- **removed_only_if_request_charlevel** (character-level pages; full statement since the repair of
+F8). If a request drops glyph fragment `f` of the character-level readable page `k`, then a flag was
+set, `f` belongs to a line group of ITS page whose assembled line `l` lies in the top or bottom band
+(measured on the assembled lines of the page), and a region of that kind — detected on at least
+`minOccurrences ≥ 2` of the readable pages at a consistent position and covering page `k` — has the
+LINE's digit-normalised text as its pattern, or is a page-number region while the line is a
+page-number pattern. -/
+theorem removed_only_if_request_charlevel (o : Options) (src : Source) (k : Nat) (rp : RawPage)
+    (hrp : src[k]? = some (some rp)) (hcl : isCharacterLevel rp.frags = true)
+    (fs : List Frag) (h : pageInput o src k = .ok fs) (f : Frag) (hf : f ∈ rp.frags) (hrem : f ∉ fs) :
     needHF o = true ∧
-    ∃ kind r, r ∈ (detect defaultConfig (collectAllPages src)).regions kind ∧
-      DetectedAt defaultConfig (collectAllPages src) kind r ∧ (k : Int) ∈ r.pages ∧
-      inRegion kind (bands defaultConfig rp.frags rp.height) f = true := by
+    ∃ g ∈ charLines rp.frags, f ∈ g ∧ ∃ l, assembleLine g = some l ∧
+      ∃ kind r, r ∈ (detect defaultConfig (collectAllPages src)).regions kind ∧
+        DetectedAt defaultConfig (collectAllPages src) kind r ∧ (k : Int) ∈ r.pages ∧
+        inRegion kind (bands defaultConfig (assembleFragmentsIntoLines rp.frags) rp.height) l = true ∧
+        (normalize (trimSpace l.text) = r.pattern ∨
+          (r.isPageNumber = true ∧ isPageNumberPattern (normalize (trimSpace l.text)) = true)) := by
   rw [pageInput_readable hrp] at h
   cases hn : needHF o with
   | false => rw [hn] at h; cases h; exact absurd hf hrem
   | true =>
     rw [hn] at h
     cases h
-    exact ⟨rfl, removed_only_if_charlevel_partial defaultConfig (collectAllPages src) (pageOf k rp) f hf hrem⟩
+    exact ⟨rfl, removed_only_if_charlevel defaultConfig (collectAllPages src) (pageOf k rp) f hcl hf hrem⟩
+
+/-- the hypotheses are satisfiable: the glyph `A` of the running line "Abc" is dropped from the
+character-level page 2 of a source made of the pages of `C11.clDoc` -/
+example : let src : Source := clDoc.map fun p => some { height := p.height, frags := p.frags }
+    let rp : RawPage := { height := 792, frags := (clPage 1 true).frags }
+    let f : Frag := { text := [65], x := 72, y := 760, w := 6, h := 12, fs := 12 }
+    src[1]? = some (some rp) ∧ isCharacterLevel rp.frags = true ∧ f ∈ rp.frags ∧
+      ∃ fs, pageInput { excludeHeaders := true } src 1 = .ok fs ∧ f ∉ fs := by
+  refine ⟨by decide +kernel, by decide +kernel, by decide +kernel, _, rfl, by decide +kernel⟩
 
 /-- **no_repetition_request.** If no digit-normalised marginal text occurs on two readable pages, every
 request returns every page unchanged. -/
